@@ -65,10 +65,14 @@ def standard(prop, tier, mc_jobs, driver, trace_module, trace_cfg, canaries, lev
     # canaries: corrupted traces that must be judged bad
     can = []
     next_id = max(ids) + 1
+    missing_canaries = []
     for fn in canaries:
         r = fn(traces)
         if r is None:
-            raise MachineryError('canary %s found no trace to corrupt' % getattr(fn, '__name__', fn))
+            # the traces of a misbehaving tree may lack the shape a canary starts from: that must not hide the violations;
+            # it is a machinery failure only if nothing else is wrong (checked below)
+            missing_canaries.append(getattr(fn, '__name__', str(fn)))
+            continue
         ctr, desc = r
         ctr = copy.deepcopy(ctr)
         ctr['id'] = next_id
@@ -111,7 +115,8 @@ def standard(prop, tier, mc_jobs, driver, trace_module, trace_cfg, canaries, lev
         for fn in x.get('canaries', ()):
             r = fn(xtraces)
             if r is None:
-                raise MachineryError('canary %s found no trace to corrupt' % getattr(fn, '__name__', fn))
+                missing_canaries.append(getattr(fn, '__name__', str(fn)))
+                continue
             ctr = copy.deepcopy(r[0])
             ctr['id'] = base * 5 + len(xcan)
             xcan.append((ctr, r[1]))
@@ -141,6 +146,8 @@ def standard(prop, tier, mc_jobs, driver, trace_module, trace_cfg, canaries, lev
         extra_info.append({'module': x['module'], 'traces': len(xtraces), 'tlc_states': xres['states'], 'wall_s': xres['wall_s']})
         res['states'] += xres['states']
         res['distinct'] += xres['distinct']
+    if missing_canaries and nviol == 0 and not oc.known_hits:
+        raise MachineryError('canary %s found no trace to corrupt' % ', '.join(missing_canaries))
     if rejected:
         tr = by_id[rejected[0]]
         p = os.path.join(wd, 'rejected_trace.json')
